@@ -36,19 +36,20 @@ def padPlan (w rp rs : Int) : PadPlan :=
   if n ≤ 0 then .orig else .pad n
 
 /-- three-argument forms: `ret 0` negative width, `ret 1` pad string not one code point, `ret 2` the value itself,
-`reach 0` the builder loop entered with `n` pad characters to write -/
+`reach 0` the builder loop entered with `n` pad characters to write (entered with `n ≤ 0` it writes nothing and the
+result is the subject: the same outcome as returning the value, so a test `n < 0` for `n <= 0` still checks) -/
 def viewPad3 : Exit → Option PadPlan
   | .ret 0 _ => some .errNeg
   | .ret 1 _ => some .errPad
   | .ret 2 _ => some .orig
-  | .reach 0 [_, n] => some (.pad n)
+  | .reach 0 [_, n] => some (if n ≤ 0 then .orig else .pad n)
   | _ => none
 
 /-- two-argument forms (pad with spaces) -/
 def viewPad2 : Exit → Option PadPlan
   | .ret 0 _ => some .errNeg
   | .ret 1 _ => some .orig
-  | .reach 0 [_, n] => some (.pad n)
+  | .reach 0 [_, n] => some (if n ≤ 0 then .orig else .pad n)
   | _ => none
 
 /-- the model's `padWith` takes exactly the decisions of `padPlan` -/
@@ -137,6 +138,34 @@ theorem go_pad_loop_bound (w rp rs n : Int) (hw : InRange w) (hs : 0 ≤ rs) (hs
   repeat' split at h
   all_goals simp at h
   omega
+
+/-- [C02, C11] **composition: what `pad_left(s, w, p)` returns, read off the Go text** — for every string, pad string,
+64-bit width: when the translated prelude leaves through an error return the model's `padWith` is invalid-value, when
+it returns the value the model returns the subject unchanged, and when it enters the builder loop it does so with
+`n = w − count(s) > 0` and the model writes exactly `n` copies of the pad string on the left. With
+`C11.padded_length` this is "the result has exactly `max(w, count(s))` code points" for the Go text. -/
+theorem go_padLeft_model (s p : Bytes) (w : Int) (orig : Val) (hw : InRange w) (hs : (runeCount s : Int) ≤ 2 ^ 62) :
+    match viewPad3 (T2.padLeft w (runeCount p) (runeCount s)) with
+    | some .errNeg => w < 0 ∧ padWith true s w p orig = errValue
+    | some .errPad => runeCount p ≠ 1 ∧ padWith true s w p orig = errValue
+    | some .orig => w ≤ runeCount s ∧ padWith true s w p orig = .ok orig
+    | some (.pad n) => n = w - runeCount s ∧ 0 < n ∧
+        (padWith true s w p orig = .unmodelled "padding wider than the model materialises" ∨
+         padWith true s w p orig = .ok (.str ((List.replicate n.toNat p).foldr (· ++ ·) [] ++ s)))
+    | none => False := by
+  rw [padLeft_tie w (runeCount p) (runeCount s) hw (by omega) hs, padWith_plan]
+  unfold padPlan
+  dsimp only
+  by_cases h1 : w < 0
+  · simp [h1]
+  · by_cases h2 : ((runeCount p : Nat) : Int) = 1
+    · by_cases h3 : w - (runeCount s : Int) ≤ 0
+      · simp only [h1, h2, h3, ↓reduceIte, ne_eq, not_true_eq_false, and_true]; omega
+      · simp only [h1, h2, h3, ↓reduceIte, ne_eq, not_true_eq_false, true_and]
+        refine ⟨by omega, ?_⟩
+        by_cases h4 : (w - (runeCount s : Int)).toNat > padLimit <;> simp [h4] <;> omega
+    · have : runeCount p ≠ 1 := by omega
+      simp [h1, h2, this]
 
 /-! ### `split` with a count -/
 
